@@ -9,7 +9,8 @@ STREAM = 'ghost.rx_consumed + self._Messenger__rx_buf'
 
 FUNCS = {
     'tcpcl.session:Messenger.recv_raw': dict(
-        self=CH, params={'data': 'Bytes'}, handler=True, props=['C07'],
+        # (C17 as well: this is the entry point the socket callback calls; a message is not handled on a closed connection)
+        self=CH, params={'data': 'Bytes'}, handler=True, props=['C07', 'C17'],
         requires=[('open', 'not closed(self)', []),
                   ('peer_name_nonempty', 'length(self._peer_name) > 0', []),
                   ('no_modulation', 'self._config.modulate_target_ack_time is None', []),
